@@ -420,6 +420,9 @@ class Fitter:
             self.close_frontier_node()
         if close.fit.child_count:
             self.placed = add_to_fragment(self.placed, close.depth, close.fit)
+            matched = self.frontier[close.depth].match.match_fragment(close.fit)
+            if matched is not None:
+                self.frontier[close.depth].match = matched
         to_ = close.move
         for d in range(close.depth + 1, to_.depth + 1):
             node = to_.node(d)
